@@ -336,3 +336,45 @@ Proof.
           unfold vcache_set in W; rewrite N.eqb_refl in W; discriminate. }
   rewrite (gos_cached own c2 node e' v S). reflexivity.
 Qed.
+
+(* ---------- two records of one node ---------- *)
+
+Local Arguments N.mul : simpl never.
+Local Arguments N.add : simpl never.
+
+Lemma rec_key_inj id1 s1 id2 s2 :
+  s1 < 18446744073709551616 -> s2 < 18446744073709551616 -> rec_key id1 s1 = rec_key id2 s2 -> id1 = id2 /\ s1 = s2.
+Proof. unfold rec_key. intros. lia. Qed.
+
+(* The answer for a record depends only on that record's pv entry, the own list and earlier calls WITH THAT RECORD:
+   whatever was negotiated with other records - other records OF THE SAME NODE included (an older or a newer one) - does
+   not matter; the first call with a record is a first contact. *)
+Theorem history_record_independent own c pre id seq e :
+  seq < 18446744073709551616 ->
+  Forall (fun st => exists i s, fst st = rec_key i s /\ s < 18446744073709551616 /\ (i, s) <> (id, seq)) pre ->
+  fst (gos_history own c (pre ++ [(rec_key id seq, e)])) =
+  fst (gos_history own c pre) ++ [fst (get_or_store own c (rec_key id seq) e)].
+Proof.
+  intros Hs H. apply history_fresh_peer. intros I. apply in_map_iff in I as (st & E & Hin).
+  rewrite Forall_forall in H. destruct (H st Hin) as (i & s & K & Hs' & NE).
+  rewrite K in E. apply rec_key_inj in E; [|assumption|assumption]. destruct E; subst. now apply NE.
+Qed.
+
+Lemma gos_empty_key own k l : fst (get_or_store own empty_cache k (PvList l)) = negotiate own l.
+Proof. unfold negotiate, get_or_store, empty_cache. destruct (find_biggest_same own l) as [v [e|]]; reflexivity. Qed.
+
+(* upgrade and downgrade: a node first seen with pv = old, then with a republished record pv = new: the second record is
+   negotiated from `new` alone *)
+Theorem history_republished_record own id s1 s2 old new :
+  s1 < 18446744073709551616 -> s2 < 18446744073709551616 -> s1 <> s2 ->
+  fst (gos_history own empty_cache [(rec_key id s1, PvList old); (rec_key id s2, PvList new)]) =
+  [negotiate own old; negotiate own new].
+Proof.
+  intros H1 H2 NE.
+  change [(rec_key id s1, PvList old); (rec_key id s2, PvList new)] with ([(rec_key id s1, PvList old)] ++ [(rec_key id s2, PvList new)]).
+  rewrite (history_record_independent own empty_cache [(rec_key id s1, PvList old)] id s2 (PvList new) H2).
+  - rewrite gos_empty_key. cbn [gos_history].
+    destruct (get_or_store own empty_cache (rec_key id s1) (PvList old)) as [x c1] eqn:E. cbn [fst app].
+    pose proof (gos_empty_key own (rec_key id s1) old) as G. rewrite E in G. cbn [fst] in G. now rewrite G.
+  - constructor; [|constructor]. exists id, s1. cbn [fst]. repeat split; auto. intros X; inversion X; congruence.
+Qed.
